@@ -522,6 +522,57 @@ def d11_operands_typed_once(chk: Check) -> None:
                      "`[version=1.00]` matches the text \"'1.0'\"")
 
 
+def _kind_test(t: ast.AST) -> bool:
+    """A test made of `is None` / isinstance() atoms only."""
+    if isinstance(t, ast.BoolOp):
+        return all(_kind_test(v) for v in t.values)
+    if isinstance(t, ast.UnaryOp) and isinstance(t.op, ast.Not):
+        return _kind_test(t.operand)
+    if isinstance(t, ast.Compare) and len(t.ops) == 1 and \
+            isinstance(t.ops[0], (ast.Is, ast.IsNot)) and \
+            isinstance(t.comparators[0], ast.Constant) and \
+            t.comparators[0].value is None:
+        return True
+    return isinstance(t, ast.Call) and src(t.func) == "isinstance"
+
+
+def d12_typing_not_skipped_by_text_properties(chk: Check) -> None:
+    """typed_value decides what a term or a node value *is*; the operators
+    compare numerically exactly when both sides came out as numbers.  YAML
+    and Python integers have no size limit and a float may be written with
+    any number of digits, so a shortcut that hands text back unconverted
+    because of a property of the text itself (its length, its first
+    character, ...) makes `5 < 1000...0` a comparison with a non-number:
+    False, and the inverted search True.  Only the kind of the value (None,
+    a wrapper, an anchored boolean) may bypass the literal evaluation."""
+    from sa.model import ancestors
+    prog = chk.prog
+    chk.rule("C12-D12", "every early return of Nodes.typed_value stands "
+             "under tests of the value's kind (is None / isinstance) only",
+             floor=2)
+    fi = prog.func("Nodes.typed_value")
+    chk.analysed(fi)
+    body = fi.node.body
+    for r in walk_local(fi.node):
+        if not isinstance(r, ast.Return) or r is body[-1]:
+            continue
+        tests = [a.test for a in ancestors(r)
+                 if isinstance(a, (ast.If, ast.While))]
+        in_handler = any(isinstance(a, ast.ExceptHandler)
+                         for a in ancestors(r))
+        text = "typed_value: `{}` under {}".format(
+            src(r)[:40], [src(t)[:40] for t in tests])
+        if in_handler or (tests and all(_kind_test(t) for t in tests)):
+            chk.ok("C12-D12", fi, r, text, "a test of the value's kind")
+        else:
+            chk.fail("C12-D12", fi, r, text,
+                     "the literal evaluation is bypassed because of a "
+                     "property of the text (not of the value's kind): a "
+                     "number written with that property stays text, the "
+                     "ordering operators answer 'not a number' and the "
+                     "inverted search matches everything")
+
+
 def run(chk: Check) -> None:
     d1_table(chk)
     d3_typed_value(chk)
@@ -535,4 +586,5 @@ def run(chk: Check) -> None:
     d9_anchored_booleans_are_booleans(chk)
     d10_subject_judged_after_its_evidence(chk)
     d11_operands_typed_once(chk)
+    d12_typing_not_skipped_by_text_properties(chk)
 
